@@ -90,7 +90,7 @@ void h_find(void) {
   ldb_repair_t *rep = malloc(sizeof(*rep));
   size_t nn;
   __CPROVER_assume(rep != NULL);
-  g_rep = rep; g_dbname[0] = 'd'; g_dbname[1] = 0; rep->dbname = g_dbname;
+  g_rep = rep; g_pin_buf = NULL; g_dbname[0] = 'd'; g_dbname[1] = 0; rep->dbname = g_dbname;
   __CPROVER_assume(g_flen >= -1);
   nn = (size_t)(g_flen > 0 ? g_flen : 0) + 1;
   g_fname_base = malloc(nn); g_fnames = malloc(nn * sizeof(char *));
